@@ -65,19 +65,33 @@ def build_overlay(workdir, shims, mutant=None):
     """Returns path of overlay json. workdir is a private scratch dir."""
     os.makedirs(workdir, exist_ok=True)
     repl = {}
-    # mutant files replace repo files
+    # mutant: a diff (mutants/<name>.diff or seeded/<name>/patch.diff) applied
+    # to private copies of the files it touches
     mut = {}
     if mutant:
-        mdir = os.path.join(VERIF, "mutants", mutant)
-        if not os.path.isdir(mdir):
+        cands = [os.path.join(VERIF, "mutants", mutant + ".diff"), os.path.join(VERIF, "seeded", mutant, "patch.diff"), mutant]
+        diff = next((c for c in cands if os.path.isfile(c)), None)
+        if diff is None:
             raise Broken("no such mutant: " + mutant)
-        for root, _, files in os.walk(mdir):
-            for f in files:
-                if f.endswith(".go"):
-                    src = os.path.join(root, f)
-                    rel = os.path.relpath(src, mdir)
-                    mut[rel] = src
-                    repl[os.path.join(REPO, rel)] = src
+        mdir = os.path.join(workdir, "mut")
+        touched = []
+        for line in open(diff, errors="replace"):
+            m = re.match(r"\+\+\+ (?:b/)?(\S+)", line)
+            if m and m.group(1) != "/dev/null":
+                touched.append(m.group(1))
+        for rel in touched:
+            dst = os.path.join(mdir, rel)
+            os.makedirs(os.path.dirname(dst), exist_ok=True)
+            if os.path.exists(os.path.join(REPO, rel)):
+                shutil.copy(os.path.join(REPO, rel), dst)
+        r = subprocess.run(["patch", "-p1", "-s", "-d", mdir, "-i", os.path.abspath(diff)], capture_output=True, text=True)
+        if r.returncode != 0:
+            raise Broken("mutant %s does not apply: %s" % (mutant, r.stdout + r.stderr))
+        for rel in touched:
+            src = os.path.join(mdir, rel)
+            if rel.endswith(".go") and os.path.exists(src):
+                mut[rel] = src
+                repl[os.path.join(REPO, rel)] = src
     # generated shims (+ rewritten sources)
     og = ensure_ovlgen()
     args = []
